@@ -475,10 +475,16 @@ func lDirectedExtras(meta *Meta) {
 			{"bare", `{"$ref":"#/paths/~1real"}`}, {"empty parameters", `{"$ref":"#/paths/~1real","parameters":[]}`}, {"empty servers", `{"$ref":"#/paths/~1real","servers":[]}`},
 			{"extension sibling", `{"$ref":"#/paths/~1real","x-note":"n"}`}, {"external, extension sibling", `{"$ref":"items.json#/paths/~1thing","x-note":"n"}`},
 			{"external", `{"$ref":"items.json#/paths/~1thing"}`}, {"external, empty parameters", `{"$ref":"items.json#/paths/~1thing","parameters":[]}`},
+			// reusable path items kept under components (the place OpenAPI 3.1 names; in 3.0 an unknown member of components)
+			{"components member", `{"$ref":"#/components/pathItems/Local"}`}, {"components member of another file", `{"$ref":"items.json#/components/pathItems/Things"}`},
+			{"extension of components", `{"$ref":"#/components/x-path-items/Local"}`}, {"extension of components of another file", `{"$ref":"items.json#/components/x-path-items/Things"}`},
 		} {
 			for _, origins := range []bool{false, true} {
-				root := `{"openapi":"3.0.3","info":{"title":"r","version":"1"},"paths":{"/alias":` + tc.alias + `,"/real":` + real + `}}`
-				store := map[string]string{"/api/root.json": root, "/api/items.json": `{"openapi":"3.0.3","info":{"title":"i","version":"1"},"paths":{"/thing":` + real + `}}`}
+				wrong := `{"get":{"operationId":"wrong","responses":{"200":{"description":"ok"}}}}`
+				root := `{"openapi":"3.0.3","info":{"title":"r","version":"1"},"paths":{"/alias":` + tc.alias + `,"/real":` + real + `},` +
+					`"components":{"pathItems":{"Local":` + real + `,"Things":` + wrong + `},"x-path-items":{"Local":` + real + `,"Things":` + wrong + `}}}`
+				store := map[string]string{"/api/root.json": root, "/api/items.json": `{"openapi":"3.0.3","info":{"title":"i","version":"1"},"paths":{"/thing":` + real + `},` +
+					`"components":{"pathItems":{"Things":` + real + `},"x-path-items":{"Things":` + real + `}}}`}
 				loader := openapi3.NewLoader()
 				loader.IsExternalRefsAllowed = true
 				loader.ReadFromURIFunc = func(_ *openapi3.Loader, u *url.URL) ([]byte, error) {
